@@ -21,12 +21,23 @@ def exprs(node):
 
 
 def same_everywhere(ta, tb, rng, what, res, case, replay_extra):
-    for (path, a), (_, b) in zip(walk(ta), walk(tb)):
-        if list(a.input_params) != list(b.input_params):
+    nb = dict(walk(tb))
+    for path, a in walk(ta):
+        b = nb.get(path)
+        if b is None:
+            res.violation("failing-input", f"{what}: node {'.'.join(path) or 'root'} is missing", {"qref": case.qref, **replay_extra}, None, None)
+            return False
+        if sorted(a.input_params) != sorted(b.input_params):
             res.violation("failing-input", f"{what}: input_params of {'.'.join(path) or 'root'} differ", {"qref": case.qref, **replay_extra},
                           list(a.input_params), list(b.input_params))
             return False
-        for (k, x), (_, y) in zip(exprs(a), exprs(b)):
+        eb = dict(exprs(b))
+        if set(dict(exprs(a))) != set(eb):
+            res.violation("failing-input", f"{what}: ports/resources of {'.'.join(path) or 'root'} differ", {"qref": case.qref, **replay_extra},
+                          sorted(map(str, dict(exprs(a)))), sorted(map(str, eb)))
+            return False
+        for k, x in exprs(a):
+            y = eb[k]
             v, d = compare.sem_equal_real(x, y, rng)
             if v == "different":
                 res.violation("failing-input", f"{what}: {k[0]} {'.'.join(path) or 'root'}.{k[1]} differs", {"qref": case.qref, **replay_extra},
@@ -123,6 +134,29 @@ def oracle(case, res, extra):
         res.stats["evaluate_raised_" + type(first).__name__] += 1
         return
     model_correspondence(cr, items, first, res, case, rng)
+    # history: export the compilation result, import it again, evaluate THAT with the same assignment — the same routine results
+    try:
+        import json as _json
+
+        from bartiq import CompiledRoutine
+        from qref import SchemaV1
+
+        from ..real import sympy_backend as _B
+        back = CompiledRoutine.from_qref(SchemaV1.model_validate(_json.loads(case.result.to_qref().model_dump_json())), _B)
+    except Exception:
+        back = None       # (export of routines with unsized root inputs is a listed C13 finding)
+        res.stats["reimport_unavailable"] += 1
+    if back is not None:
+        try:
+            ev_back = evaluate(back, asg_of(perms[0])).routine
+        except Exception as e:
+            res.violation("failing-input", f"evaluating the re-imported compilation result raises {type(e).__name__} although evaluating the result itself does not",
+                          {"qref": case.qref, "assignments_in_order": list(asg_of(perms[0]).items()), "history": "compile, to_qref, from_qref, evaluate"}, str(e)[:200], "same result")
+            return
+        res.stats["evaluated_after_reimport"] += 1
+        if not same_everywhere(first, ev_back, rng, "evaluate after export and import vs evaluate", res, case,
+                               {"assignments_in_order": list(asg_of(perms[0]).items()), "history": "compile, to_qref, from_qref, evaluate"}):
+            return
     # reference: simultaneous substitution, everywhere (ports, resources, all descendants), unassigned untouched
     allnames = set(names) | {"zz"}
     for (path, a), (_, b) in zip(walk(cr), walk(first)):
